@@ -5,7 +5,7 @@ Never commits anything to /repo; refuses to start when /repo is not clean."""
 import os, sys, json, subprocess, time, re
 tier = sys.argv[1] if len(sys.argv) > 1 else "quick"
 only = sys.argv[2] if len(sys.argv) > 2 else ""   # optional prefix filter, e.g. C13
-ENV = dict(os.environ, GOFLAGS="-mod=mod", GOPROXY="off", GOSUMDB="off", GOTOOLCHAIN="local")
+ENV = dict(os.environ, GOFLAGS="-mod=mod", GOPROXY="off", GOSUMDB="off", GOTOOLCHAIN="local", VERIF_EVIDENCE_DIR="/verif/.build/evidence-seeded")
 def sh(cmd, cwd=None, timeout=3600):
     p = subprocess.run(cmd, cwd=cwd, env=ENV, shell=True, stdout=subprocess.PIPE, stderr=subprocess.STDOUT, text=True, timeout=timeout)
     return p.returncode, p.stdout
